@@ -27,6 +27,7 @@ type c12Task struct {
 	From   int     `json:"from"` // damage offsets [From, To)
 	To     int     `json:"to"`
 	Near   bool    `json:"near"`             // only offsets within 16 bytes of a chunk/block boundary
+	Fill   int     `json:"fill,omitempty"`   // record content: 0 position-dependent pattern, 1 all zero bytes, 2 one repeated byte per record
 	Tuples [][]int `json:"tuples,omitempty"` // roundtrip: many tuples per task (all masks each)
 }
 
@@ -60,12 +61,26 @@ func nestedPayload(n int) []byte {
 	return b
 }
 
+// c12Fill selects the record content of the task being run (see c12Task.Fill): content that equals
+// what a reader's buffer already holds (zeros in a fresh buffer, the previous block's bytes at the
+// same offsets) is what makes a read beyond the end of the data go unnoticed.
+var c12Fill int
+
 // recBytes: the content of record idx; a negative length -n asks for nestedPayload(n).
 func recBytes(idx, n int) []byte {
 	if n < 0 {
 		return nestedPayload(-n)
 	}
 	b := make([]byte, n)
+	switch c12Fill {
+	case 1:
+		return b
+	case 2:
+		for i := range b {
+			b[i] = byte(0x5A + idx) // per record, so that records stay distinguishable
+		}
+		return b
+	}
 	for i := range b {
 		b[i] = byte(31*idx + 7*i + i>>8 + 1)
 	}
@@ -204,6 +219,15 @@ func checkDamaged(full, data []byte, lens []int, ext [][2]int, cutAt int, flipAt
 		if len(got) != len(lens) || err != nil {
 			effect = true
 		}
+		// nothing yielded that the stream no longer holds in full (the match is the earliest record
+		// with that content, so this can only be too lenient)
+		if cutAt >= 0 {
+			for _, m := range matched {
+				if ext[m][1] > cutAt {
+					return fmt.Sprintf("reader (strict=%v) yielded record %d (bytes %d..%d) although the stream ends at %d", strict, m, ext[m][0], ext[m][1], cutAt), true
+				}
+			}
+		}
 		have := map[int]bool{}
 		for _, m := range matched {
 			have[m] = true
@@ -334,6 +358,8 @@ func runC12(t *c12Task) *c12Result {
 			}
 		}
 	case "trunc", "flip", "zero":
+		c12Fill = t.Fill
+		defer func() { c12Fill = 0 }()
 		data, ext, err := buildStream(t.Lens, t.Mask)
 		if err != nil {
 			res.Viol = append(res.Viol, "writer error: "+err.Error())
@@ -477,35 +503,41 @@ func init() {
 			type ds struct {
 				lens []int
 				mask int
+				fill int
 			}
-			full := []ds{{[]int{1}, 0}, {[]int{0, 7, 1}, 0b010}, {[]int{100, 0, 3000}, 0b101}, {[]int{32761, 1}, 0}, {[]int{32755, 7, 7}, 0b001}, {[]int{32768}, 0}, {[]int{20000, 20000}, 0b01}}
-			near := []ds{{[]int{65539, 1}, 0}, {[]int{32769, 32761, 7}, 0b010}, {[]int{1, 65539, 1}, 0b111}, {[]int{32753, 32754, 1}, 0},
+			full := []ds{{[]int{1}, 0, 0}, {[]int{0, 7, 1}, 0b010, 0}, {[]int{100, 0, 3000}, 0b101, 0}, {[]int{32761, 1}, 0, 0}, {[]int{32755, 7, 7}, 0b001, 0}, {[]int{32768}, 0, 0}, {[]int{20000, 20000}, 0b01, 0}}
+			near := []ds{{[]int{65539, 1}, 0, 0}, {[]int{32769, 32761, 7}, 0b010, 0}, {[]int{1, 65539, 1}, 0b111, 0}, {[]int{32753, 32754, 1}, 0, 0},
 				// a record whose continuation chunk fills block 1 exactly (or up to the padding), so
 				// that the next record starts at the first byte of block 2
-				{[]int{65522, 5}, 0}, {[]int{65519, 5, 1}, 0b010}, {[]int{100, 65415, 9}, 0}}
+				{[]int{65522, 5}, 0, 0}, {[]int{65519, 5, 1}, 0b010, 0}, {[]int{100, 65415, 9}, 0, 0}}
+			// records of zero bytes and of one repeated byte (what a reader's buffer holds beyond the
+			// data: zeros when fresh, the previous block at the same offsets later)
+			full = append(full, ds{[]int{100}, 0, 1}, ds{[]int{3, 40000}, 0b01, 1}, ds{[]int{40000}, 0, 2}, ds{[]int{5, 33000, 5}, 0b010, 2})
 			// a record spanning blocks whose content is itself journal-framed, preceded by 0..7
 			// bytes so that every alignment of the inner chunks against the outer ones occurs
 			for shift := 0; shift < 8; shift++ {
-				near = append(near, ds{[]int{shift, -40000, 3}, 0})
+				near = append(near, ds{[]int{shift, -40000, 3}, 0, 0})
 			}
 			if !quick {
 				for _, a := range c12Lens {
 					for _, b := range []int{0, 1, 7, 32761} {
-						full = append(full, ds{[]int{a % 40000, b}, 0b01})
-						near = append(near, ds{[]int{a, b, 7}, 0b100})
+						full = append(full, ds{[]int{a % 40000, b}, 0b01, 0})
+						near = append(near, ds{[]int{a, b, 7}, 0b100, 0})
 					}
 				}
 			}
 			step := 4096
 			for _, kind := range []string{"trunc", "flip", "zero"} {
 				for _, s := range full {
+					c12Fill = s.fill
 					data, _, _ := buildStream(s.lens, s.mask)
+					c12Fill = 0
 					for from := 0; from < len(data)+1; from += step {
 						to := from + step
 						if kind == "trunc" && to > len(data) {
 							to = len(data) + 1
 						}
-						tasks = append(tasks, c12Task{Kind: kind, Lens: s.lens, Mask: s.mask, From: from, To: to})
+						tasks = append(tasks, c12Task{Kind: kind, Lens: s.lens, Mask: s.mask, From: from, To: to, Fill: s.fill})
 					}
 				}
 				for _, s := range near {
